@@ -1027,6 +1027,22 @@ def Q_rules(ctx, rule="Q"):
             ctx.check(ok4, rule + "4", "first-error|%s" % key, where,
                       "%s returns the callback's first error and invokes nothing afterwards" % key,
                       "error path of %s: from_residual sites %s, callback reachable after error: %s, error sources %s" % (key, frs, bad, [fmt_src(s) for s in esrc][:3]))
+            # Q4b: the callback's result is inspected before the function can return or go on
+            tb = [bb for bb, t in b.calls() if callee_path(t) == "std::ops::Try::branch" and
+                  any(s.kind == "usercall" for s in fl.sources_operand(b, t["args"][0]))]
+            for sb, blk in enumerate(b.blocks):
+                if blk["term"]["k"] == "switch":
+                    de = strip_refs(switch_expr(b, sb))
+                    if de.kind == "discr" and any(s.kind == "usercall" for s in sources_of_expr(ctx, b, de[1])):
+                        tb.append(sb)
+            okb = bool(pcs)
+            for cbb in pcs:
+                nxt = b.blocks[cbb]["term"].get("target")
+                if nxt is None or not b.all_paths_pass(nxt, tb, b.exits()):
+                    okb = False
+            ctx.check(okb, rule + "4", "result-checked|%s" % key, where,
+                      "every path from a callback invocation to the return of %s inspects that invocation's result (`?`/match)" % key,
+                      "%s can return without inspecting the result of the last callback invocation: its error is swallowed" % key)
     # Q5 iter_insertion*
     for nm, fn_ in (("iter_insertion", "node_references"), ("iter_insertion_mut", "node_weights_mut"), ("iter_insertion_with_indices", "node_references")):
         fid = "fn_graph::FnGraph::<F>::" + nm
@@ -1136,6 +1152,41 @@ def G_rules(ctx, rule="G"):
             why = "raw_edges of the given graph: %s/%s, adaptors %s, %s" % (has_raw, g_ok, sel, why)
     ctx.check(ok2, rule + "2", "edges", where,
               "edges come from raw_edges() in order, mapped to (source(), target(), weight), unfiltered, into add_edges", why)
+    # G1b/G2b: no return path of from_graph skips the node copy or the edge copy (except for a graph without nodes / edges)
+    def bypass_ok(via, allow):
+        via = set(via)
+        reach = fg.reachable(0, avoid=via)
+        if not (set(fg.exits()) & reach):
+            return True
+        nb = len(fg.blocks)
+        can = set(x for x in range(nb) if x in via or (fg.reachable(x) & via))
+        committed = set(x for x in reach if x not in can and (fg.reachable(x) & set(fg.exits())))
+        pred = fg.normal_pred()
+        for d in sorted(committed):
+            if d != 0 and not any(p_ in reach and p_ not in committed for p_ in pred[d]):
+                continue
+            ok_d = False
+            for sb, x, rel in guard_eq_zero(fg, d):
+                xs = strip_refs(x) if not isinstance(x, str) else None
+                if rel == "eq0" and xs is not None and xs.kind == "call" and any(xs[1].endswith(a) for a in allow):
+                    ok_d = True
+            if not ok_d:
+                return False
+        return True
+    if len(addn) == 1 and addn[0][0].kind == "closure":
+        uses = fl.closure_uses(addn[0][0])
+        if len(uses) == 1 and uses[0][0].id == fg.id:
+            ctx.check(bypass_ok([uses[0][1]], ("::node_count",)), rule + "1", "nodes-always", where,
+                      "every return path of from_graph runs the node copy (or the graph has no nodes)",
+                      "from_graph can return without copying the nodes for a graph that has nodes")
+    elif len(addn) == 1 and addn[0][0].id == fg.id:
+        ctx.check(bypass_ok([addn[0][1]], ("::node_count",)), rule + "1", "nodes-always", where,
+                  "every return path of from_graph runs the node copy (or the graph has no nodes)",
+                  "from_graph can return without copying the nodes for a graph that has nodes")
+    if len(adde) == 1:
+        ctx.check(bypass_ok([adde[0][0]], ("::node_count", "::edge_count")), rule + "2", "edges-always", where,
+                  "every return path of from_graph runs the edge copy (or the graph has no edges)",
+                  "from_graph can return without copying the edges for a graph that has edges")
     # G4 iter / iter_rev
     for nm, rev in (("iter", False), ("iter_rev", True)):
         b = fb.bodies.get("graph_info::GraphInfo::<NodeInfo>::" + nm)
